@@ -791,6 +791,18 @@ theorem chainStage_spec {h0 : Heap} (hc : closedHeap h0 = true) (env : Env)
         List.getElem?_concat_length (joinWith_inb hc hj)
       exact ⟨hfr.trans hfr.1 this.1, ResRel.mono hfr.1 this.2⟩
 
+theorem refFlattenFn_pos (env : Env) (h0 : Heap) (sub : List Val) (init : InitArg) (levels : Int)
+    (target : Val) (hl0 : (levels == 0) = false) (hneg : ¬ levels < 0) :
+    refFlattenFn env h0 sub init levels target =
+      match refItems env h0 sub target with
+      | .error e => .err e
+      | .ok items => refAfter h0 init (joinN h0 (levels.toNat - 1) items) := by
+  unfold refFlattenFn
+  simp only [hl0, Bool.false_eq_true, if_false, hneg]
+  cases refItems env h0 sub target with
+  | error e => rfl
+  | ok items => exact refAfter_eq h0 init _
+
 theorem flattenFn_spec {h0 h : Heap} (c : Ctx h0 h) (env : Env)
     (hchain : iterHandlerOf env "chain" true = some "iter")
     (hcatch : regLookup env.foldCatch "UnregisteredTarget" = some "FoldError")
@@ -803,13 +815,17 @@ theorem flattenFn_spec {h0 h : Heap} (c : Ctx h0 h) (env : Env)
     cases init with
     | lazy => rfl
     | init i => exact hinit
-  unfold flattenFn refFlattenFn
   by_cases h0l : (levels == 0) = true
-  · simp only [h0l, if_true]; exact ⟨Frame.rfl' (Nat.le_refl _), rfl, ht⟩
-  · simp only [h0l, if_false]
+  · unfold flattenFn refFlattenFn
+    simp only [h0l, if_true]; exact ⟨Frame.rfl' (Nat.le_refl _), rfl, ht⟩
+  · have h0l' : (levels == 0) = false := by simpa using h0l
     by_cases hneg : levels < 0
-    · simp only [hneg, if_true]; exact ⟨Frame.rfl' (Nat.le_refl _), rfl⟩
-    · simp only [hneg, if_false]
+    · unfold flattenFn refFlattenFn
+      simp only [h0l', Bool.false_eq_true, if_false, hneg, if_true]
+      exact ⟨Frame.rfl' (Nat.le_refl _), rfl⟩
+    · rw [refFlattenFn_pos env h0 sub init levels target h0l' hneg]
+      unfold flattenFn
+      simp only [h0l', Bool.false_eq_true, if_false, hneg]
       have hes := evalSub_ext c sub target hsub ht
       unfold refItems
       rw [hes.1]
@@ -817,7 +833,7 @@ theorem flattenFn_spec {h0 h : Heap} (c : Ctx h0 h) (env : Env)
       | error e => exact ⟨Frame.rfl' (Nat.le_refl _), rfl⟩
       | ok t =>
         have htin := hes.2 t he
-        simp only [refAfter_eq]
+        simp only
         cases hk : levels.toNat - 1 with
         | zero =>
           simp only [List.replicate, List.nil_append, chainEval_single, joinN]
@@ -850,5 +866,413 @@ theorem flattenFn_spec {h0 h : Heap} (c : Ctx h0 h) (env : Env)
               (h ++ [.tuple "chain" items]) h.length items (c.frame.trans c.frame.1 hfr)
               List.getElem?_concat_length (targetIter_inb c.closed env htin hti)
             exact ⟨hfr.trans hfr.1 this.1, ResRel.mono hfr.1 this.2⟩
+
+/-! ### Merge's constructor, merge() -/
+
+theorem mkMerge_spec (h0 : Heap) (sub : List Val) (init : Init) (op : MergeOpArg) (hi : init.allocates = true)
+    (h : Heap) :
+    Frame h.length h (mkMerge sub init op h).2 ∧
+      (mkMerge sub init op h).1 =
+        (match refMergeOp h0 init op with
+         | .ok o => .ok ⟨.merge, sub, init, o, false⟩
+         | .error e => .error e) := by
+  have key : ∀ n : String,
+      Frame h.length h (let (t, h1) := callInit init h
+        match methodOf (t.clsName h1) n with
+        | some o => ((.ok ⟨.merge, sub, init, o, false⟩ : Except Err FoldSpec), h1)
+        | none => (.error (.raised "ValueError"), h1)).2 ∧
+      (let (t, h1) := callInit init h
+        match methodOf (t.clsName h1) n with
+        | some o => ((.ok ⟨.merge, sub, init, o, false⟩ : Except Err FoldSpec), h1)
+        | none => (.error (.raised "ValueError"), h1)).1 =
+      (match (match initSV h0 init with
+          | some (.cell o) => (match methodOf o.cls n with
+            | some o => Except.ok o
+            | none => Except.error (Err.raised "ValueError"))
+          | some (.imm v) => (match methodOf (v.clsName h0) n with
+            | some o => Except.ok o
+            | none => Except.error (Err.raised "ValueError"))
+          | none => Except.error (Err.raised "ValueError")) with
+        | .ok o => .ok ⟨.merge, sub, init, o, false⟩
+        | .error e => .error e) := by
+    intro n
+    cases init with
+    | shared v => cases hi
+    | int | str =>
+      simp only [callInit, initSV, Val.clsName]
+      cases methodOf _ n <;> exact ⟨Frame.rfl' (Nat.le_refl _), rfl⟩
+    | list | tuple | dict | odict | acc =>
+      simp only [callInit, materialise, initSV, Val.clsName, List.getElem?_concat_length, Obj.cls]
+      cases methodOf _ n <;> exact ⟨Frame.append (Nat.le_refl _) _, rfl⟩
+  cases op with
+  | none => exact key "update"
+  | name n => exact key n
+  | iadd => exact ⟨Frame.rfl' (Nat.le_refl _), rfl⟩
+  | firstWins => exact ⟨Frame.rfl' (Nat.le_refl _), rfl⟩
+
+theorem mergeFn_spec {h0 h : Heap} (c : Ctx h0 h) (env : Env)
+    (hcatch : regLookup env.foldCatch "UnregisteredTarget" = some "FoldError")
+    (sub : List Val) (init : Init) (op : MergeOpArg) (hinit : init.allocates = true) {target : Val}
+    (hsub : ∀ k ∈ sub, Val.inb h0.length k = true) (ht : Val.inb h0.length target = true) :
+    Frame h.length h (mergeFn env sub init op h target).2 ∧
+      ResRel h0.length h.length (mergeFn env sub init op h target) (refMerge env h0 sub init op target) := by
+  have hm := mkMerge_spec h0 sub init op hinit h
+  unfold mergeFn refMerge
+  rcases hmk : mkMerge sub init op h with ⟨r, h1⟩
+  rw [hmk] at hm
+  simp only at hm
+  cases hro : refMergeOp h0 init op with
+  | error e =>
+    rw [hro] at hm
+    simp only [hm.2]
+    exact ⟨hm.1, rfl⟩
+  | ok o =>
+    rw [hro] at hm
+    simp only [hm.2]
+    have c1 : Ctx h0 h1 := c.step c.frame.1 hm.1
+    have := glomit_spec c1 env hcatch ⟨.merge, sub, init, o, false⟩ hinit hsub ht
+    exact ⟨hm.1.trans hm.1.1 this.1, ResRel.mono hm.1.1 this.2⟩
+
+/-! ### sequences of evaluations and what an observer sees -/
+
+/-- `f` realises the reference `ref` on every later heap, touching nothing that existed -/
+def EvalOK (h0 : Heap) (f : Heap → Val → Except Err Val × Heap) (ref : Val → RefRes) : Prop :=
+  ∀ h t, Ctx h0 h → Val.inb h0.length t = true →
+    Frame h.length h (f h t).2 ∧ ResRel h0.length h.length (f h t) (ref t)
+
+theorem evalAll_frame {h0 : Heap} {f : Heap → Val → Except Err Val × Heap} {ref : Val → RefRes}
+    (hf : EvalOK h0 f ref) :
+    ∀ (targets : List Val), (∀ t ∈ targets, Val.inb h0.length t = true) → ∀ h, Ctx h0 h →
+      Frame h.length h (evalAll f targets h).2 := by
+  intro targets
+  induction targets with
+  | nil => intro _ h _; exact Frame.rfl' (Nat.le_refl _)
+  | cons t ts ih =>
+    intro ht h c
+    have h1 := (hf h t c (ht t List.mem_cons_self)).1
+    have h2 := ih (fun x hx => ht x (List.mem_cons_of_mem _ hx)) _ (c.step c.frame.1 h1)
+    simp only [evalAll]
+    exact h1.trans h1.1 h2
+
+theorem evalAll_length {f : Heap → Val → Except Err Val × Heap} :
+    ∀ (targets : List Val) (h : Heap), (evalAll f targets h).1.length = targets.length := by
+  intro targets
+  induction targets with
+  | nil => intro _; rfl
+  | cons t ts ih => intro h; simp [evalAll, ih]
+
+theorem take_of_frame {n : Nat} {h0 h : Heap} (hn : n = h0.length) (f : Frame n h0 h) : h.take n = h0 := by
+  apply List.ext_getElem?
+  intro i
+  rw [List.getElem?_take]
+  by_cases hi : i < n
+  · simp only [hi, if_true]; exact f.2 i hi
+  · simp only [hi, if_false]; rw [List.getElem?_eq_none (by omega)]
+
+theorem prevIndex_none {earlier : List (Except Err Val)} {a : Nat}
+    (he : ∀ b, Except.ok (Val.ref b) ∈ earlier → b ≠ a) : prevIndex earlier a = none := by
+  unfold prevIndex
+  simp only
+  split
+  · rename_i hlt
+    rw [List.findIdx_lt_length] at hlt
+    obtain ⟨x, hx, hp⟩ := hlt
+    split at hp
+    · rename_i b
+      simp only [beq_iff_eq] at hp
+      exact absurd hp (he b hx)
+    · cases hp
+  · rfl
+
+theorem showNew_ext {h0 h : Heap} (c : Ctx h0 h) (env : Env) {o : Obj} (ho : newOK h0.length o) :
+    showNew env h o = showNew env h0 o := by
+  cases o with
+  | tuple cls xs =>
+    simp only [showNew]
+    by_cases hc : (cls == "chain") = true
+    · simp only [hc, if_true]
+      rw [joinWith_ext c (ho (by simpa using hc))]
+    · have hc' : (cls == "chain") = false := by simpa using hc
+      simp only [hc', Bool.false_eq_true, if_false]
+  | _ => rfl
+
+theorem showInput_ext {h0 h : Heap} (c : Ctx h0 h) {a : Nat} (ha : a < h0.length) :
+    showInput h a = showInput h0 a := by
+  simp only [showInput, c.get ha]
+
+/-- what an observer sees of one evaluation that realises `r` -/
+theorem observeOne_spec {h0 hfin : Heap} (cfin : Ctx h0 hfin) (env : Env) {b : Nat} (hb : h0.length ≤ b)
+    {earlier : List (Except Err Val)} (he : ∀ a, Except.ok (Val.ref a) ∈ earlier → a < b)
+    {res : Except Err Val} {h1 : Heap} {r : RefRes} (hr : ResRel h0.length b (res, h1) r)
+    (hkeep : ∀ a, a < h1.length → hfin[a]? = h1[a]?) :
+    observeOne env h0.length hfin earlier res = showRef env h0 r := by
+  cases r with
+  | err e => simp only [ResRel] at hr; subst hr; rfl
+  | imm v =>
+    obtain ⟨h1', hn⟩ := hr
+    simp only at h1'; subst h1'
+    cases v <;> first | rfl | exact absurd rfl (hn _)
+  | same v =>
+    obtain ⟨h1', hin⟩ := hr
+    simp only at h1'; subst h1'
+    cases v with
+    | ref a =>
+      have ha := inb_ref.mp hin
+      simp only [observeOne, ha, if_true, showRef, showInput_ext cfin ha]
+    | _ => rfl
+  | new o =>
+    obtain ⟨a, h1', h2, h3, h4⟩ := hr
+    simp only at h1' h3; subst h1'
+    have hna : ¬ a < h0.length := by omega
+    have hprev : prevIndex earlier a = none := prevIndex_none (fun b' hb' => by have := he b' hb'; omega)
+    have hget : hfin[a]? = some o := by rw [hkeep a (get_lt h3)]; exact h3
+    simp only [observeOne, hna, if_false, hprev, hget, showRef, showNew_ext cfin env h4]
+
+theorem observeAll_spec {h0 : Heap} (hc : closedHeap h0 = true) (env : Env)
+    {f : Heap → Val → Except Err Val × Heap} {ref : Val → RefRes} (hf : EvalOK h0 f ref) :
+    ∀ (targets : List Val), (∀ t ∈ targets, Val.inb h0.length t = true) →
+    ∀ (h : Heap), Ctx h0 h → ∀ (earlier : List (Except Err Val)),
+      (∀ a, Except.ok (Val.ref a) ∈ earlier → a < h.length) →
+    ∀ (hfin : Heap), Frame (evalAll f targets h).2.length (evalAll f targets h).2 hfin →
+      observeAll env h0.length hfin earlier (evalAll f targets h).1 =
+        targets.map (fun t => showRef env h0 (ref t)) := by
+  intro targets
+  induction targets with
+  | nil => intro _ h _ earlier _ hfin _; rfl
+  | cons t ts ih =>
+    intro ht h c earlier he hfin hfr
+    have hft := hf h t c (ht t List.mem_cons_self)
+    have c1 : Ctx h0 (f h t).2 := c.step c.frame.1 hft.1
+    have hrest := evalAll_frame hf ts (fun x hx => ht x (List.mem_cons_of_mem _ hx)) _ c1
+    simp only [evalAll] at hfr ⊢
+    simp only [observeAll, List.map_cons]
+    have cfin : Ctx h0 hfin := (c1.step c1.frame.1 hrest).step
+      (Nat.le_trans c1.frame.1 hrest.1) hfr
+    have hkeep : ∀ a, a < (f h t).2.length → hfin[a]? = (f h t).2[a]? := by
+      intro a ha
+      rw [hfr.2 a (Nat.lt_of_lt_of_le ha hrest.1), hrest.2 a ha]
+    congr 1
+    · exact observeOne_spec cfin env c.frame.1 he (r := ref t) (h1 := (f h t).2) hft.2 hkeep
+    · apply ih (fun x hx => ht x (List.mem_cons_of_mem _ hx)) _ c1 _ _ hfin hfr
+      intro a ha
+      rcases List.mem_append.mp ha with h1 | h1
+      · exact Nat.lt_of_lt_of_le (he a h1) hft.1.1
+      · simp only [List.mem_singleton] at h1
+        have hr := hft.2
+        have hlen := Nat.le_trans c.frame.1 hft.1.1
+        revert hr h1 hlen
+        rcases f h t with ⟨res, hh1⟩
+        intro h1 hr hlen
+        simp only at h1 hlen ⊢
+        subst h1
+        cases hrt : ref t with
+        | err e => rw [hrt] at hr; simp [ResRel] at hr
+        | imm v =>
+          rw [hrt] at hr; obtain ⟨h1', hn⟩ := hr
+          simp only at h1'; injection h1' with h1'; exact absurd h1'.symm (hn a)
+        | same v =>
+          rw [hrt] at hr; obtain ⟨h1', hin⟩ := hr
+          simp only at h1'; injection h1' with h1'; subst h1'
+          exact Nat.lt_of_lt_of_le (inb_ref.mp hin) hlen
+        | new o =>
+          rw [hrt] at hr; obtain ⟨a', h1', _, h3, _⟩ := hr
+          simp only at h1' h3; injection h1' with h1'; injection h1' with h1'; subst h1'
+          exact get_lt h3
+
+/-! ### special cases of the reduce -/
+
+theorem refReduce_eq_foldlM (step : SV → Val → Except Err SV) (items : List Val) (sv : SV) :
+    refReduce step items sv = items.foldlM step sv := by
+  induction items generalizing sv with
+  | nil => rfl
+  | cons v vs ih =>
+    simp only [refReduce, List.foldlM_cons, bind, Except.bind]
+    cases step sv v with
+    | error e => rfl
+    | ok sv' => exact ih sv'
+
+theorem reduce_iadd_int (h0 : Heap) :
+    ∀ (items : List Val) (is : List Int) (a : Int), allInts items = some is →
+      refReduce (foldStep .iadd h0) items (.imm (.int a)) = .ok (.imm (.int (a + is.sum))) := by
+  intro items
+  induction items with
+  | nil => intro is a h; simp [allInts] at h; subst h; simp [refReduce]
+  | cons v vs ih =>
+    intro is a h
+    simp only [allInts] at h
+    cases hv : asInt v with
+    | none => simp [hv] at h
+    | some i =>
+      cases hvs : allInts vs with
+      | none => simp [hv, hvs] at h
+      | some is' =>
+        simp [hv, hvs] at h; subst h
+        have ha : asInt (.int a) = some a := rfl
+        have : foldStep .iadd h0 (.imm (.int a)) v = .ok (.imm (.int (a + i))) := by
+          simp only [foldStep, pyOp, pyAdd, ha, hv, Except.map, foldRet]
+        simp only [refReduce, this, ih is' (a + i) hvs, List.sum_cons, Int.add_assoc]
+
+theorem reduce_iadd_list (h0 : Heap) :
+    ∀ (items : List Val) (acc : List Val),
+      refReduce (foldStep .iadd h0) items (.cell (.list "list" acc)) =
+        match joinWith (rawIter h0) items with
+        | some ys => .ok (.cell (.list "list" (acc ++ ys)))
+        | none => .error typeErr := by
+  intro items
+  induction items with
+  | nil => intro acc; simp [refReduce, joinWith]
+  | cons v vs ih =>
+    intro acc
+    have hstep : foldStep .iadd h0 (.cell (.list "list" acc)) v =
+        match rawIter h0 v with
+        | some ys => .ok (.cell (.list "list" (acc ++ ys)))
+        | none => .error typeErr := by
+      have : ("list" == "Acc") = false := by decide
+      simp only [foldStep, pyOp, pyAdd, this, if_true, Bool.false_eq_true, if_false]
+      cases rawIter h0 v <;> rfl
+    simp only [refReduce, hstep, joinWith]
+    cases hr : rawIter h0 v with
+    | none => rfl
+    | some ys =>
+      simp only [ih (acc ++ ys)]
+      cases joinWith (rawIter h0) vs with
+      | none => rfl
+      | some zs => simp [List.append_assoc]
+
+theorem joinWith_raw_eq {h0 : Heap} (hc : closedHeap h0 = true) {items : List Val}
+    (hi : ∀ x ∈ items, Val.inb h0.length x = true) :
+    joinWith (rawIter h0) items = joinWith (rawIter1 h0) items :=
+  joinWith_congr (fun x hx => rawIter_ext (Ctx.base hc) (hi x hx))
+
+theorem joinN_inb {h0 : Heap} (hc : closedHeap h0 = true) :
+    ∀ (n : Nat) (xs ys : List Val), (∀ x ∈ xs, Val.inb h0.length x = true) → joinN h0 n xs = some ys →
+      ∀ y ∈ ys, Val.inb h0.length y = true := by
+  intro n
+  induction n with
+  | zero => intro xs ys hx h; simp [joinN] at h; subst h; exact hx
+  | succ n ih =>
+    intro xs ys hx h
+    rw [joinN_succ] at h
+    cases hj : joinWith (rawIter1 h0) xs with
+    | none => simp [hj] at h
+    | some zs => simp only [hj] at h; exact ih zs ys (joinWith_inb hc hj) h
+
+theorem joinN_succ' (h0 : Heap) :
+    ∀ (n : Nat) (xs : List Val), joinN h0 (n + 1) xs =
+      match joinN h0 n xs with
+      | some ys => joinWith (rawIter1 h0) ys
+      | none => none := by
+  intro n
+  induction n with
+  | zero => intro xs; simp only [joinN_succ, joinN]; cases joinWith (rawIter1 h0) xs <;> rfl
+  | succ n ih =>
+    intro xs
+    rw [joinN_succ, joinN_succ h0 n xs]
+    cases joinWith (rawIter1 h0) xs with
+    | none => rfl
+    | some zs => exact ih zs
+
+/-! ### dictionaries: last writer wins -/
+
+def keyNorm : Val → Val
+  | .bool b => .int (if b then 1 else 0)
+  | v => v
+
+theorem pyKeyEq_norm (a b : Val) : pyKeyEq a b = decide (keyNorm a = keyNorm b) := by
+  cases a with
+  | bool x =>
+    cases b with
+    | bool y => cases x <;> cases y <;> simp [pyKeyEq, keyNorm]
+    | int j => cases x <;> simp [pyKeyEq, keyNorm, Bool.beq_eq_decide_eq]
+    | _ => simp [pyKeyEq, keyNorm]
+  | int i =>
+    cases b with
+    | bool y => cases y <;> simp [pyKeyEq, keyNorm, Bool.beq_eq_decide_eq]
+    | int j => simp [pyKeyEq, keyNorm, Bool.beq_eq_decide_eq]
+    | _ => simp [pyKeyEq, keyNorm]
+  | none => cases b <;> simp [pyKeyEq, keyNorm]
+  | str s => cases b <;> simp [pyKeyEq, keyNorm, Bool.beq_eq_decide_eq]
+  | float s => cases b <;> simp [pyKeyEq, keyNorm, Bool.beq_eq_decide_eq]
+  | sent s => cases b <;> simp [pyKeyEq, keyNorm, Bool.beq_eq_decide_eq]
+  | ty s => cases b <;> simp [pyKeyEq, keyNorm, Bool.beq_eq_decide_eq]
+  | fn s => cases b <;> simp [pyKeyEq, keyNorm, Bool.beq_eq_decide_eq]
+  | ref s => cases b <;> simp [pyKeyEq, keyNorm, Bool.beq_eq_decide_eq]
+
+theorem pyKeyEq_trans_left {a b q : Val} (hab : pyKeyEq a b = true) : pyKeyEq a q = pyKeyEq b q := by
+  simp only [pyKeyEq_norm, decide_eq_true_eq] at hab ⊢
+  rw [hab]
+
+theorem dictLookup_cons (p : Val × Val) (es : List (Val × Val)) (k : Val) :
+    dictLookup (p :: es) k = if pyKeyEq p.1 k then some p.2 else dictLookup es k := by
+  simp only [dictLookup, List.find?_cons]
+  cases pyKeyEq p.1 k <;> rfl
+
+theorem dictLookup_dictSet (es : List (Val × Val)) (k x q : Val) :
+    dictLookup (dictSet es k x) q = if pyKeyEq k q then some x else dictLookup es q := by
+  induction es with
+  | nil => simp [dictSet, dictLookup_cons, dictLookup]
+  | cons p es ih =>
+    simp only [dictSet]
+    by_cases hpk : pyKeyEq p.1 k = true
+    · simp only [hpk, if_true, dictLookup_cons]
+      rw [pyKeyEq_trans_left hpk]
+      cases pyKeyEq k q <;> rfl
+    · have hpk' : pyKeyEq p.1 k = false := by simpa using hpk
+      simp only [hpk', Bool.false_eq_true, if_false, dictLookup_cons, ih]
+      by_cases hkq : pyKeyEq k q = true
+      · have : pyKeyEq p.1 q = false := by
+          simp only [pyKeyEq_norm, decide_eq_true_eq, decide_eq_false_iff_not] at hkq hpk' ⊢
+          rw [← hkq]; exact hpk'
+        simp [hkq, this]
+      · have hkq' : pyKeyEq k q = false := by simpa using hkq
+        simp [hkq']
+
+theorem dictLookup_applyPairs (ps : List (Val × Val)) :
+    ∀ (es : List (Val × Val)) (q : Val),
+      dictLookup (applyPairs es ps) q =
+        match lastPair ps q with
+        | some v => some v
+        | none => dictLookup es q := by
+  induction ps with
+  | nil => intro es q; rfl
+  | cons p ps ih =>
+    intro es q
+    have : applyPairs es (p :: ps) = applyPairs (dictSet es p.1 p.2) ps := rfl
+    rw [this, ih, lastPair, dictLookup_dictSet]
+    cases lastPair ps q with
+    | some v => rfl
+    | none => cases pyKeyEq p.1 q <;> rfl
+
+theorem applyPairs_append (es ps qs : List (Val × Val)) :
+    applyPairs es (ps ++ qs) = applyPairs (applyPairs es ps) qs := by
+  simp [applyPairs, List.foldl_append]
+
+theorem reduce_update_dicts (h0 : Heap) (c : String) (hc : (c == "Acc") = false) :
+    ∀ (items : List Val) (ds : List (List (Val × Val))) (es : List (Val × Val)), dictsOf h0 items = some ds →
+      refReduce (mergeStep (.update c) h0) items (.cell (.dict c es)) =
+        .ok (.cell (.dict c (applyPairs es ds.flatten))) := by
+  intro items
+  induction items with
+  | nil => intro ds es h; simp [dictsOf] at h; subst h; simp [refReduce, applyPairs]
+  | cons v vs ih =>
+    intro ds es h
+    cases v with
+    | ref a =>
+      simp only [dictsOf] at h
+      cases ho : h0[a]? with
+      | none => simp [ho] at h
+      | some o =>
+        cases o with
+        | dict c2 es2 =>
+          cases hds : dictsOf h0 vs with
+          | none => simp [ho, hds] at h
+          | some ds' =>
+            simp [ho, hds] at h; subst h
+            have : mergeStep (.update c) h0 (.cell (.dict c es)) (.ref a) =
+                .ok (.cell (.dict c (applyPairs es es2))) := by
+              simp [mergeStep, pyOp, pyUpdate, hc, updatePairs, ho, Except.map, mergeRet]
+            simp only [refReduce, this, ih ds' _ hds, List.flatten_cons, applyPairs_append]
+        | _ => simp [ho] at h
+    | _ => simp [dictsOf] at h
 
 end Glom.C15
